@@ -109,6 +109,11 @@ func (d *decoder) decodeCompactBytes(v value) {
 func (d *decoder) decodeArray(v value, elemType reflect.Type, decodeElem decodeFunc) {
 	if n := d.readInt32(); n < 0 {
 		v.setArray(array{})
+	} else if int(n) > d.remain {
+		// Each element takes at least one byte, the array cannot have more
+		// elements than there are bytes left in the frame.
+		d.setError(io.ErrUnexpectedEOF)
+		v.setArray(array{})
 	} else {
 		a := makeArray(elemType, int(n))
 		for i := 0; i < int(n) && d.remain > 0; i++ {
@@ -120,6 +125,9 @@ func (d *decoder) decodeArray(v value, elemType reflect.Type, decodeElem decodeF
 
 func (d *decoder) decodeCompactArray(v value, elemType reflect.Type, decodeElem decodeFunc) {
 	if n := d.readUnsignedVarInt(); n < 1 {
+		v.setArray(array{})
+	} else if n-1 > uint64(d.remain) {
+		d.setError(io.ErrUnexpectedEOF)
 		v.setArray(array{})
 	} else {
 		a := makeArray(elemType, int(n-1))
@@ -149,6 +157,16 @@ func (d *decoder) discard(n int) {
 }
 
 func (d *decoder) read(n int) []byte {
+	if n < 0 {
+		d.setError(fmt.Errorf("invalid negative length in kafka message: %d", n))
+		return nil
+	}
+	if n > d.remain {
+		// The length prefix announces more bytes than what is left in the frame,
+		// don't trust it to size the allocation.
+		d.setError(io.ErrUnexpectedEOF)
+		return nil
+	}
 	b := make([]byte, n)
 	n, err := io.ReadFull(d, b)
 	b = b[:n]
@@ -429,7 +447,7 @@ func structDecodeFuncOf(typ reflect.Type, version int16, flexible bool) decodeFu
 			// for details of tag buffers in "flexible" messages.
 			n := int(d.readUnsignedVarInt())
 
-			for i := 0; i < n; i++ {
+			for i := 0; i < n && d.remain > 0; i++ {
 				tagID := int(d.readUnsignedVarInt())
 				size := int(d.readUnsignedVarInt())
 
